@@ -2,6 +2,14 @@
 """Regenerates MANIFEST.json from the table below (kept in one place so that it stays valid)."""
 import json, sys
 CHECKS = {
+ "C13": dict(
+   text="Scalar-recoding mechanisms of fixed-base multiplication decided by SMT: ed25519 condAddOrderN, div2subY and one recoding step from an arbitrary state (m = 2m' + digit, no borrow lost), for every value; the algebraic group law is not claimed.",
+   note="Deliberately narrow: only integer recoding mechanisms (DESIGN §4 C13); group law, exceptional cases, pairings and hash-to-curve are outside the technique.",
+   ref="§4 C13"),
+ "C19": dict(
+   text="Prio3 constructors decided for all parameter values: Sum (all 2^64 bounds: error or bits/offset exact and 2^bits below the field modulus), SumVec, Histogram, MultihotCountVec (no panic, degenerate parameters are errors, derived lengths).",
+   note="Bounds: vector length < 2^12..2^20 as stated per harness; encode/decode/circuit clauses not yet covered.",
+   ref="§4 C19"),
  "C05": dict(
    text="Ed25519 scalar arithmetic of the real code decided by SMT (linear integer carry equations): red512 on every 256-bit input and on every input below 2^320 (quick; full 512-bit in the thorough tier), isLessThanOrder equals integer comparison with L for every 32-byte string.",
    note="Point arithmetic / group equation outside the technique; Ed448 scalars are checked under C12 (goldilocks).",
